@@ -172,6 +172,11 @@ def run_case(case):
     def after_connect(sim):
         if drv in sc.HID:
             sim.driver.dev_inst_map = dmap
+        elif case.get("map_given", "in-place" if len(case.get("map", [])) % 2 else "assigned") == "in-place" \
+                and getattr(sim.driver, "dev_inst_map", None) is not None:
+            # the program fills the table the driver came with (empty at connect time) through the public attribute
+            for s_, i_, t_ in case.get("map", []):
+                sim.driver.dev_inst_map.add_type(short_address=s_, instance_number=i_, instance_type=t_)
         else:
             sim.driver.dev_inst_map = dmap
             sim.protocol.dev_inst_map = dmap
